@@ -20,7 +20,7 @@ RULE = ("a case is a family of operation histories on IdentDB replayed against a
         "and at least one lookup invariant was evaluated; distinct = distinct abstract histories (operation names with "
         "their abstract arguments)")
 ASSUMPTIONS = ["identifier texts passed to the public store() are unique unless the case says otherwise",
-               "remove_local raising on Python 3 (NameError: unicode) is treated as an operation that failed without effect"]
+               ]
 
 USERS = ["alice", "bob"]
 SPS = ["https://sp1.example.org/md", "https://sp2.example.org/md"]
@@ -95,6 +95,9 @@ class Harness(object):
             raise
         except Exception as exc:
             self.hit("op_raised:%s:%s" % (name, type(exc).__name__))
+            if name == "remove_local" or isinstance(exc, NameError):
+                # removing a user the store may or may not know has no reason to fail, and a NameError is never a refusal
+                raise Violation("C18/operation-cannot-be-carried-out", "%s%r raised %r" % (name, args, exc))
             after = self.snapshot()
             if after != before:
                 raise Violation("C18/failed-operation-changed-state",
@@ -119,10 +122,13 @@ class Harness(object):
             raise Violation("C18/filtered-lookup-disagrees", "find_nameid(%r, sp_name_qualifier=%r, format=%s): %r, issued and live with those fields: %r" % (
                 u, sp, fmt.split(":")[-1], got, want))
 
-    def op_persistent(self, u, sp):
-        have = [x for x in self.m.live if x["user"] == u and x["fields"][2] == self.PERS and (x["fields"][1] or "") == sp and x["fields"][0] == NQ]
-        nid = self.db.persistent_nameid(u, sp, NQ)
+    def op_persistent(self, u, sp, nq=NQ):
+        have = [x for x in self.m.live if x["user"] == u and x["fields"][2] == self.PERS and (x["fields"][1] or "") == sp and (x["fields"][0] or "") == nq]
+        nid = self.db.persistent_nameid(u, sp, nq)
         f = fields_of(nid)
+        if not f[4] or f[2] != self.PERS and not have:
+            # (what comes back is handed to a service provider as the user's identifier)
+            raise Violation("C18/wrong-identifier-shape", "persistent identifier asked for %s at %r (name qualifier %r) came back as %r" % (u, sp, nq, f))
         if have:
             self.hit("persistent_stability_checked")
             if f[4] not in [x["text"] for x in have]:
@@ -271,6 +277,9 @@ def alphabet(h, sps=SPS):
             if sp:
                 ops.append(("lookup", u, sp, h.PERS))
         ops.append(("remove_local", u))
+        if "" in sps:
+            # no qualifier at all (an IdentDB as Server builds it has the empty name qualifier)
+            ops.append(("persistent", u, "", ""))
     n = len(h.m.live)
     for k in range(n):
         ops.append(("remove_remote_nearmiss", k, ["no-name-qualifier", "other-sp-qualifier", "other-sp-provided-id", "other-format"][k % 4]))
